@@ -71,6 +71,15 @@ def extras(etl):
         U('rowreduce(keeps the rows)', lambda a: etl.rowreduce(a, 'k', lambda k, rows: [k, list(rows)], header=['k', 'rows'])),
         U('fold(keeps the accumulator)', lambda a: etl.fold(a, 'k', lambda acc, v: acc + [v], 'v', []) if True else None),
         U('stack(trim=False)', lambda a: etl.stack(a, trim=False)),
+        U('unjoin(presorted)[0]', lambda a: etl.unjoin(a, 'v', presorted=True)[0]),
+        U('unjoin(presorted)[1]', lambda a: etl.unjoin(a, 'v', presorted=True)[1]),
+        U('unjoin(key, presorted)[0]', lambda a: etl.unjoin(a, 'v', key='k', presorted=True)[0]),
+        U('duplicates(presorted)', lambda a: etl.duplicates(a, 'k', presorted=True)),
+        U('distinct(presorted)', lambda a: etl.distinct(a, 'k', presorted=True)),
+        U('aggregate(presorted)', lambda a: etl.aggregate(a, 'k', list, presorted=True)),
+        U('rowgroupmap(presorted)', lambda a: etl.rowgroupmap(a, 'k', lambda k, rows: ([k, len(r)] for r in rows), header=['k', 'n'], presorted=True)),
+        B('join(presorted)', lambda a, b: etl.join(a, b, key='k', presorted=True)),
+        B('complement(presorted)', lambda a, b: etl.complement(a, b, presorted=True)),
         B('stack(trim=False, two tables)', lambda a, b: etl.stack(a, b, trim=False, missing='M')),
         U('stack(pad=False)', lambda a: etl.stack(a, pad=False)),
         # other numbers of operands than two: one table squared up by cat/stack, three and four tables side by side
